@@ -22,7 +22,6 @@ var opKindsDepth = []string{
 	"getI", "getAbsent", "clear",
 	"asc", "asc", "asc", "desc", "desc", "zig", "zig", "drain", "drain", "rm2",
 	"deep", "deep", "deep", "deep", "deep", "deep", "bulkremove", "prune", "clone", "switch", "switch",
-	"shape",
 }
 
 func genOp(kinds []string) *rapid.Generator[Op] {
